@@ -10,6 +10,16 @@ Theorem C05_tie : G = guards_of_gen /\ g_shutdown_restores G = true /\ g_startup
 Proof. vm_compute. repeat split. Qed.
 Print Assumptions C05_tie.
 
+(* the panic recovery (which restores the terminal, the line discipline included) runs before a TTY that Run opened itself
+   is closed: it is registered after every `defer f.Close()` (translator: gen/ChanOps.defers, registration order); the
+   real counterpart is the termios comparison on /dev/tty in a child with a controlling pty *)
+Theorem C05_recover_before_tty_close : recover_registered_after_tty_close = true /\
+  (forall a b l, exit_order (l ++ [a; b]) = b :: a :: exit_order l).
+Proof.
+  split; [vm_compute; reflexivity|]. intros a b l. unfold exit_order. rewrite rev_app_distr. reflexivity.
+Qed.
+Print Assumptions C05_recover_before_tty_close.
+
 Theorem C05_restored_at_every_return : forall s, Reach s -> is_returned s = true -> restored_last s = true.
 Proof. exact returned_restored. Qed.
 Print Assumptions C05_restored_at_every_return.
